@@ -47,3 +47,17 @@ Definition valid_name_b (k : bytes) : bool :=
   nonul k && forallb (fun x => negb (existsb (N.eqb x) forbidden) && negb (N.ltb x 32) && negb (N.eqb x 127)) k &&
   match k with x :: _ => negb (N.eqb x 95) && negb (N.eqb x 45) | [] => true end.
 Definition valid_id_b (k : bytes) : bool := negb (match k with [] => true | _ => false end) && nonul k.
+
+(* ---------- kvindex/keys.go: the label index (string terms) ---------- *)
+Definition tag_i : bytes := [105]%N.   (* "i": entries *)
+Definition tag_t : bytes := [116]%N.   (* "t": terms *)
+Definition ttype_string : bytes := [1]%N.
+(* i | field | type | term | docid *)
+Definition entry_key (field term doc : bytes) := join [tag_i; field; ttype_string; term; doc].
+(* t | field | type | term *)
+Definition term_key (field term : bytes) := join [tag_t; field; ttype_string; term].
+(* the scan of one term's entries: i | field | type | term | (empty) *)
+Definition entry_value_prefix (field term : bytes) := join [tag_i; field; ttype_string; term; []].
+(* all entries / all terms of one field *)
+Definition entry_prefix (field : bytes) := join [tag_i; field; []].
+Definition term_prefix (field : bytes) := join [tag_t; field; []].
